@@ -44,6 +44,10 @@ pub struct NetCfg {
     pub weak_rng: [u8; 2],
     /// informational: profile names chosen by the generator
     pub profile: String,
+    /// 0.6+token only: the acceptor is replaced by `Connection::new_accept_token` when the client's Accept arrives
+    /// (stateless anti-spoofing accept, as in the repository's establish_connection_anti_ip_addr_spoofing test)
+    #[serde(default)]
+    pub stateless_accept: bool,
 }
 
 /// `ep`: 0 = A (connecting side), 1 = B (accepting side), 2 = both (Advance only).
@@ -120,6 +124,8 @@ pub struct Side {
     /// payloads refused with TooLongData: must never show up on the wire
     pub refused: Vec<Vec<u8>>,
     pub ticks_in_suffix: u32,
+    /// reason passed to disconnect(), if called
+    pub close_reason: Option<Vec<u8>>,
 }
 
 pub struct World<'a> {
@@ -208,6 +214,7 @@ impl<'a> World<'a> {
             connless_pending: Vec::new(),
             refused: Vec::new(),
             ticks_in_suffix: 0,
+            close_reason: None,
         };
         World {
             prop,
@@ -427,7 +434,7 @@ impl<'a> World<'a> {
         // (kind, chunks: Vec<(data, vital seq)>, header count)
         enum Parsed {
             Connless(Vec<u8>),
-            Control(&'static str),
+            Control(&'static str, Option<Vec<u8>>),
             Chunks(u8, Vec<(Vec<u8>, Option<u16>)>),
         }
         let mut warns: Vec<String> = Vec::new();
@@ -450,7 +457,7 @@ impl<'a> World<'a> {
                         p7::ControlPacket::Accept => "Accept",
                         p7::ControlPacket::Close(_) => "Close",
                         p7::ControlPacket::Token(_) => "Token",
-                    }),
+                    }, if let p7::ControlPacket::Close(r) = ctrl { Some(r.to_vec()) } else { None }),
                     p7::ConnectedPacketType::Chunks(_, n, payload) => {
                         let mut it = p7::ChunksIter::new(payload, n);
                         let mut w: Vec<p7::Warning> = Vec::new();
@@ -481,7 +488,7 @@ impl<'a> World<'a> {
                         p6::ControlPacket::ConnectAccept => "ConnectAccept",
                         p6::ControlPacket::Accept => "Accept",
                         p6::ControlPacket::Close(_) => "Close",
-                    }),
+                    }, if let p6::ControlPacket::Close(r) = ctrl { Some(r.to_vec()) } else { None }),
                     p6::ConnectedPacketType::Chunks(_, n, payload) => {
                         let mut it = p6::ChunksIter::new(payload, n);
                         let mut w: Vec<p6::Warning> = Vec::new();
@@ -506,7 +513,12 @@ impl<'a> World<'a> {
                     return Some(self.viol("connless-not-queued", &[], format!("{} sent a connectionless datagram nobody submitted: {}", who, hex(&d))));
                 }
             }
-            Parsed::Control(kind) => {
+            Parsed::Control(kind, reason) => {
+                if let Some(r) = reason {
+                    if self.s[ep].close_reason.as_ref() != Some(&r) {
+                        return Some(self.viol("close-reason-differs", &[], format!("{} sent a close with reason {:?} but disconnect() was given {:?}", who, String::from_utf8_lossy(&r), self.s[ep].close_reason.as_ref().map(|x| String::from_utf8_lossy(x).to_string()))));
+                    }
+                }
                 let legal: &[&str] = match (self.cfg.proto.is_v7(), ep) {
                     (false, 0) => &["Connect", "Accept", "KeepAlive", "Close"],
                     (false, _) => &["ConnectAccept", "KeepAlive", "Close"],
